@@ -26,7 +26,7 @@ import elementpath.aliases as ta
 
 from elementpath.exceptions import ElementPathValueError
 from elementpath.namespaces import XML_ID, XML_LANG, XML_NAMESPACE
-from elementpath.helpers import Patterns, is_idrefs, is_xml_codepoint, round_number
+from elementpath.helpers import Patterns, is_idrefs, is_xml_codepoint, round_number, get_double
 from elementpath.datatypes import DateTime10, DateTime, Date10, Date, \
     Float, DoubleProxy, Time, Duration, DayTimeDuration, YearMonthDuration, \
     UntypedAtomic, AnyURI, QName, NCName, Id, ArithmeticProxy, NumericProxy
@@ -693,6 +693,8 @@ def select__subsequence(self: XPathFunction, context: ta.ContextType = None) \
         context = self.context
 
     starting_loc = self.get_argument(context, 1, required=True, cls=NumericProxy)
+    if isinstance(starting_loc, int):
+        starting_loc = get_double(starting_loc)  # the parameter is an xs:double
     if not math.isnan(starting_loc) and not math.isinf(starting_loc):
         starting_loc = float(round_number(starting_loc))
 
@@ -702,6 +704,8 @@ def select__subsequence(self: XPathFunction, context: ta.ContextType = None) \
                 yield result
     else:
         length = self.get_argument(context, 2, required=True, cls=NumericProxy)
+        if isinstance(length, int):
+            length = get_double(length)
         if not math.isnan(length) and not math.isinf(length):
             length = float(round_number(length))
 
